@@ -524,3 +524,56 @@ def run_call(fn, *a, **kw):
         if isinstance(e, (KeyboardInterrupt, SystemExit, MemoryError)):
             raise
         return {"err": type(e).__name__}
+
+
+# --------------------------------------------------------------------------- TLC behaviours
+_act = re.compile(r"^\\\* <(\w+)(?:\(([^)]*)\))? line")
+
+
+def parse_behaviour_file(path):
+    """Parse one file written by `tlc -simulate file=...`: [(action, [params], state-dict), ...]."""
+    steps = []
+    action, params, buf = None, [], []
+
+    def flush():
+        if action is None:
+            return
+        text = "\n".join(buf)
+        state = {}
+        for m in re.finditer(r"/\\ (\w+) = (.*?)(?=\n/\\ \w+ = |\Z)", text, re.S):
+            state[m.group(1)] = parse_tla(m.group(2))
+        steps.append((action, params, state))
+
+    with open(path) as fh:
+        for line in fh:
+            line = line.rstrip("\n")
+            m = _act.match(line)
+            if m:
+                flush()
+                action = m.group(1)
+                params = [parse_tla(x) for x in m.group(2).split(",")] if m.group(2) else []
+                buf = []
+            elif line.startswith("STATE_") or line.startswith("----") or line.startswith("===="):
+                continue
+            elif action is not None:
+                buf.append(line)
+    flush()
+    return steps
+
+
+def simulate(module, cfg, *, num, depth, seed, native=False, timeout=900, tag=None):
+    """Ask TLC for `num` random behaviours of the model (simulation mode) and parse them."""
+    tag = tag or f"sim-{module}-{os.getpid()}-{time.time_ns() % 10**9}"
+    d = os.path.join(WORK, "sim", tag)
+    os.makedirs(d, exist_ok=True)
+    r = tlc(module, cfg, native=native, workers=1, timeout=timeout, tag=tag,
+            args=["-simulate", f"file={d}/b,num={num}", "-depth", str(depth), "-seed", str(seed)])
+    if "Error:" in r.out and "violated" in r.out:
+        raise MachineryFailure(f"simulation of {module}/{cfg} hit a spec violation:\n{r.error_text()}")
+    behaviours = []
+    for f in sorted(os.listdir(d)):
+        behaviours.append(parse_behaviour_file(os.path.join(d, f)))
+    shutil.rmtree(d, ignore_errors=True)
+    if not behaviours:
+        raise MachineryFailure(f"simulation of {module}/{cfg} produced no behaviours:\n{r.out[-1500:]}")
+    return behaviours, r
